@@ -26,6 +26,7 @@ def run(ck):
     ck.rule("C11-O1", "processMessage: on the fatal path (own thread not running) a flush of the whole pipeline is executed after the pipeline ran and before returning")
     ck.rule("C11-O2", "SimplePipeline::flush -> recursiveFlush(this): every handler is visited; each Sink is flushed, each nested Pipeline is descended into; no early exit")
     ck.rule("C11-O3", "FileSink::flush flushes its QFile and RotatingFileSink does not hide it; the file written by IODeviceSink::send is the file that is flushed")
+    every_record_is_written(ck)
     pm = F.fn(LG + "::processMessage")
     ck.touch(pm)
     g = Graph(pm)
@@ -296,3 +297,24 @@ def sinks_driven_through_the_list(ck):
     # the essential anchor is Sink::process -> send; a derived sink may or may not go through its base class's send()
     ck.require(n_sites >= 1 and any(o_["rule"] == "C11-O4" and (o_.get("key") or "").endswith("send-site|process") for o_ in ck.obligations),
                "expected the call site Sink::process -> send, found %d send sites" % n_sites)
+
+
+def every_record_is_written(ck):
+    """C11-O6: what is flushed at the fatal moment is what was written: on every path of the rotating sink's send() the record is handed to the
+    device (an error flag, a closed-file test or a rate limit in front of the only write silently discards the records behind it - the fatal one
+    included)."""
+    from rules.rfs import Sink
+    ck.rule("C11-O6", "RotatingFileSink::send writes the record on every path (with a device); IODeviceSink::send writes whenever it has a device")
+    S = Sink(ck)
+    fn = S.send
+    g = S.g(fn)
+    c_wr = S.record_writes(fn)
+    if not c_wr:
+        ck.ob("C11-O6", sitestr(fn), None, "the write of the record was not found in RotatingFileSink::send", key="RotatingFileSink::send|write")
+        return
+    has_dev = lambda n_: (False if (is_call(n_, ("isNull",)) and is_this_field(skip_copies(n_).get("obj"), IO + "::m_device")) else True if is_this_field(n_, IO + "::m_device") else None)
+    sw = set(g.sites_of_nodes(c_wr))
+    ok = g.must_pass(sw, keep=g.projector(has_dev))
+    ck.ob("C11-O6", sitestr(fn, c_wr[0]), ok, "every path of RotatingFileSink::send hands the record to the device" if ok else
+          "RotatingFileSink::send has a path that returns without writing the record: whatever the guard in front of the only write tests (an error flag that nothing clears, a closed file), the records "
+          "behind it - the fatal one included - never reach the file that is flushed", key="RotatingFileSink::send|write")
